@@ -716,8 +716,12 @@ func (x *Exec) inBounds(idx Value, n int, what string) {
 			x.tpanic(fmt.Sprintf("index out of range [%d] with length %d (%s)", int64(i), n, what))
 		}
 	case *Term:
+		if termUB(i) < uint64(n) {
+			return // structurally in range (masked / reduced index): no decision
+		}
 		ok := x.st.Cmp(OpUlt, i, x.st.Const(i.w, uint64(n)))
-		if !x.branch(ok) {
+		// ask for the out-of-range case first: the common "always in range" outcome then costs one query
+		if x.branch(x.st.Not(ok)) {
 			x.tpanic(fmt.Sprintf("index out of range [symbolic] with length %d (%s)", n, what))
 		}
 	default:
